@@ -4,6 +4,7 @@ package onchain
 
 import (
 	"bytes"
+	"crypto/sha256"
 	"encoding/hex"
 	"io"
 
@@ -46,9 +47,12 @@ import (
 //     program.  ASSUMPTION: glightning.NewAddr / lnrpc.NewAddress(WITNESS_PUBKEY_HASH) return
 //     witness-v0 addresses; for any other address type `OP_0 <ScriptAddress()>` is not the
 //     address' script (bitcoin.go:219 builds the script by hand instead of PayToAddrScript).
-//   - the fee estimator answers an arbitrary rate of 0..2^32-1 sat/kW without error (errors and
-//     negative rates only select the fallback/floor, C30); fallback and floor are 0, so the real
-//     GetFee yields fee = uint64(float64(rate*4)/1000*float64(size)), 0 for rate 0.
+//   - the fee estimator answers an arbitrary whole rate k = 0..65535 sat/vB (= 250*k sat/kW)
+//     without error; fallback and floor are 0.  For such rates the real GetFee is exactly
+//     k*size (float64 arithmetic is exact), so on the symbolic side GetFee is replaced by that
+//     integer formula (floating point makes every fee comparison a minutes-long solver query);
+//     GetFee itself — errors, fallback, floor, fractional rates — is C30's subject.  Natively the
+//     real GetFee runs against the same estimator.
 // ---------------------------------------------------------------------------------------
 
 const vSpMaxOuts = 4
@@ -131,11 +135,9 @@ func vSpDeserialize(tx *wire.MsgTx, r io.Reader) error {
 }
 
 func vSpTxHash(tx *wire.MsgTx) chainhash.Hash {
-	var h chainhash.Hash
-	d := zzverif.UFStr("txhash", tx)
-	zzverif.Assume(len(d) == 32)
-	copy(h[:], []byte(d))
-	return h
+	// an uninterpreted function of the transaction content with a 32-byte result (the sha256
+	// intrinsic is itself uninterpreted; it only supplies the length)
+	return chainhash.Hash(sha256.Sum256([]byte(zzverif.UFStr("txhash", tx))))
 }
 
 func vSpNewWSH(prog []byte, net *chaincfg.Params) (*btcutil.AddressWitnessScriptHash, error) {
@@ -161,15 +163,22 @@ func vSpDecodeAddress(addr string, net *chaincfg.Params) (btcutil.Address, error
 	return &vSpAddr{prog: vSpB.addrProg}, nil
 }
 
-// vSpEstimator: every call answers an arbitrary 32-bit rate in sat/kW and remembers it.
-type vSpEstimator struct{ rates []btcutil.Amount }
+// vSpEstimator: every call answers an arbitrary whole rate in sat/vB and remembers it.
+type vSpEstimator struct{ perVb []uint64 }
 
 func (e *vSpEstimator) EstimateFeePerKW(targetBlocks uint32) (btcutil.Amount, error) {
-	r := btcutil.Amount(int64(zzverif.U32("fee_rate_sat_per_kw")))
-	e.rates = append(e.rates, r)
-	return r, nil
+	k := uint64(zzverif.U16("fee_rate_sat_per_vb"))
+	e.perVb = append(e.perVb, k)
+	return btcutil.Amount(int64(k * 250)), nil
 }
 func (e *vSpEstimator) Start() error { return nil }
+
+// vSpGetFee (symbolic side only): GetFee for the whole-sat/vB rates of vSpEstimator.
+func vSpGetFee(b *BitcoinOnChain, txSize int64) (uint64, error) {
+	b.estimator.EstimateFeePerKW(BitcoinFeeTargetBlocks)
+	est := vSpB.est
+	return est.perVb[len(est.perVb)-1] * uint64(txSize), nil // no division: 64-bit bvudiv stalls the solver
+}
 
 func vSpNewTxSigHashes(tx *wire.MsgTx, f txscript.PrevOutputFetcher) *txscript.TxSigHashes {
 	return &txscript.TxSigHashes{}
@@ -217,6 +226,7 @@ func vSpBtcSetup(maxOuts int) *vSpBtc {
 		zzverif.Override("github.com/btcsuite/btcd/btcutil.NewAddressWitnessScriptHash", vSpNewWSH)
 		zzverif.Override("(*github.com/btcsuite/btcd/btcutil.AddressSegWit).ScriptAddress", vSpWSHScriptAddress)
 		zzverif.Override("github.com/btcsuite/btcd/btcutil.DecodeAddress", vSpDecodeAddress)
+		zzverif.Override("(*github.com/elementsproject/peerswap/onchain.BitcoinOnChain).GetFee", vSpGetFee)
 		zzverif.Override("github.com/btcsuite/btcd/txscript.NewTxSigHashes", vSpNewTxSigHashes)
 		zzverif.Override("github.com/btcsuite/btcd/txscript.CalcWitnessSigHash", vSpCalcWitnessSigHash)
 	}
@@ -382,17 +392,11 @@ func vSpBtcSpend(kind int, maxOuts int) {
 	// GetFee(stripped size 82 + 74) at the rate of the estimator's last answer
 	fee := prepared
 	if prepared == 0 {
-		fee = vFeeOf(e.est.rates[len(e.est.rates)-1], 82+74)
+		fee = e.est.perVb[len(e.est.perVb)-1] * (82 + 74)
 	}
 	zzverif.Assert(spent == int64(e.params.Amount), "C03.btc_spent_value_is_amount")
 	zzverif.Assert(tx.TxOut[0].Value == spent-200-int64(fee), "C03.btc_value_is_spent_minus_200_minus_fee")
-	if spent >= 200 && fee <= uint64(spent-200) {
-		zzverif.Assert(tx.TxOut[0].Value >= 0 && tx.TxOut[0].Value <= spent, "C03.btc_value_in_range_when_fee_fits")
-	} else {
-		// fee + 200 > spent value: the code still builds the transaction, with a NEGATIVE output
-		// value (no check in bitcoin.go:245) — such a transaction is invalid, funds are not lost
-		zzverif.Reach("C03.btc_negative_output_when_fee_exceeds_value")
-	}
+	// (sign/range of that value: H_C03_btcValueRange)
 
 	// redeem script and sighash arguments: (redeem script, input 0, SIGHASH_ALL, spent value)
 	wantRedeem, _ := GetOpeningTxScript(e.taker, e.maker, e.hash, BitcoinCsv)
@@ -408,10 +412,34 @@ func vSpBtcSpend(kind int, maxOuts int) {
 // vout) with empty scriptSig and nSequence 0 (preimage, coop) / 1008 (csv), exactly one output
 // paying OP_0 <wallet program> with value spent-200-fee (fee = GetFee(156 vB), or GetFee(250) for
 // coop unless that is 0), and the sighash is computed over (redeem script, input 0, SIGHASH_ALL,
-// spent value).  Fee rate arbitrary 0..2^32-1 sat/kW.
+// spent value).  Fee rate arbitrary whole 0..65535 sat/vB.
 func H_C03_btcPreimageSpend()   { vSpBtcSpend(vSpPreimage, 2) }
 func H_C03_btcCsvSpend()        { vSpBtcSpend(vSpCsv, 2) }
 func H_C03_btcCoopSpend()       { vSpBtcSpend(vSpCoop, 2) }
 func H_C03_T_btcPreimageSpend() { vSpBtcSpend(vSpPreimage, vSpMaxOuts) }
 func H_C03_T_btcCsvSpend()      { vSpBtcSpend(vSpCsv, vSpMaxOuts) }
 func H_C03_T_btcCoopSpend()     { vSpBtcSpend(vSpCoop, vSpMaxOuts) }
+
+// H_C03_btcValueRange: arithmetic of the Bitcoin builder's output value v = spent - 200 - fee
+// (the formula H_C03_btc*Spend prove for the real code; 64-bit two's complement, fee converted
+// with int64(fee) as bitcoin.go:245 does): v is in [0, spent] exactly when spent >= 200 and
+// fee <= spent-200, for 0 <= spent <= 21e14 sat.  Otherwise the builder returns a transaction
+// with a NEGATIVE output value (nothing in bitcoin.go checks it); such a transaction is invalid
+// and cannot move funds.  With the default policy minimum of 100 000 sat this needs a fee above
+// 99 800 sat, i.e. more than 639 sat/vB for the 156 vB estimate.  The constant 200 sat is
+// deducted in addition to the fee (bitcoin.go:224) and silently goes to the miner.
+func H_C03_btcValueRange() {
+	spent := zzverif.I64("spent")
+	fee := zzverif.U64("fee")
+	zzverif.Assume(spent >= 0 && spent <= 2100000000000000)
+	v := spent - 200 - int64(fee)
+	fits := spent >= 200 && fee <= uint64(spent-200)
+	if fits {
+		zzverif.Assert(v >= 0, "C03.btc_value_nonnegative_when_fee_fits")
+		zzverif.Assert(v <= spent, "C03.btc_value_at_most_spent_when_fee_fits")
+		zzverif.Assert(uint64(v)+fee+200 == uint64(spent), "C03.btc_value_plus_fee_plus_200_is_spent")
+	} else {
+		zzverif.Reach("C03.btc_negative_output_when_fee_exceeds_value")
+		zzverif.Assert(v < 0 || fee > 1<<62, "C03.btc_value_negative_or_absurd_fee_otherwise")
+	}
+}
